@@ -66,10 +66,11 @@ fn lin_diff(a: &LinearModel, c: &LinearModel) -> Vec<(String, String)> {
             continue;
         }
         let (ta, tc) = (a.domain()[v].get_type(), c.domain()[v].get_type());
-        if format!("{}", ta) == format!("{}", tc) { continue; }
+        // structural comparison (Debug), not Display: the rendering itself is what is under test
+        if format!("{:?}", ta) == format!("{:?}", tc) { continue; }
         let iv = |t: &VariableType| match t { VariableType::Boolean => (0.0, 1.0, 0), VariableType::IntegerRange(l, h) => (*l as f64, *h as f64, 1), VariableType::Real(l, h) => (*l, *h, 2), VariableType::NonNegativeReal(l, h) => (*l, *h, 2) };
         let ((la, ha, ka), (lc, hc, kc)) = (iv(ta), iv(tc));
-        if ka == kc && lc >= la && hc <= ha { out.push(("domain-retightened".into(), format!("`{}`: {} becomes {}", v, ta, tc))); } else { out.push(un(format!("domain of `{}`: {} vs {}", v, ta, tc))); }
+        if ka == kc && lc >= la && hc <= ha { out.push(("domain-retightened".into(), format!("`{}`: {:?} becomes {:?}", v, ta, tc))); } else { out.push(un(format!("domain of `{}`: {:?} vs {:?}", v, ta, tc))); }
     }
     for v in c.variables() { if !a.variables().contains(v) { out.push(un(format!("new variable `{}` after re-compilation", v))); } }
     out
@@ -264,7 +265,7 @@ fn wide_linear(r: &mut Rng) -> LinearModel {
             4 => VariableType::Real(-mag(r), f64::INFINITY),
             5 => { let lo = -mag(r); VariableType::Real(lo, lo + mag(r)) }
             6 => VariableType::NonNegativeReal(0.0, f64::INFINITY),
-            7 => VariableType::NonNegativeReal(0.0, mag(r)),
+            7 => if r.chance(1, 2) { VariableType::NonNegativeReal(0.0, mag(r)) } else { VariableType::NonNegativeReal(mag(r), f64::INFINITY) },
             _ => { let lo = mag(r); VariableType::NonNegativeReal(lo, lo + mag(r)) }
         };
         l.add_variable(nm, ty);
